@@ -262,32 +262,85 @@ theorem C15_toLike (y x : Obj α) (fresh : Nat) :
   unfold toLike
   by_cases h : y.dtype = x.dtype <;> simp [h]
 
-/-- **scalar_mult with `out=`**: the product (the same tensor value as without `out`) is returned AS the
-buffer object (its identity, its dtype) when the buffer is neither operand; without `out` a new object of
-`x`'s dtype is returned. -/
-theorem C15_scalar_mult_out (x y o : Obj α) (f1 f2 : Nat) (r : Tensor α) (hr : scalarMult x.t y.t = .ok r) :
-    scalarMultO x y none f1 f2 = .ok ⟨f2, x.dtype, r⟩ ∧
-    (¬ (o.id = x.id ∨ o.id = (toLike y x f1).id) → scalarMultO x y (some o) f1 f2 = .ok ⟨o.id, o.dtype, r⟩) := by
-  have ht : (toLike y x f1).t = y.t := (C15_toLike y x f1).2.2
-  constructor
-  · simp only [scalarMultO, ht, hr, ok_bind, pure_eq_ok]
-  · intro h
-    simp only [scalarMultO, if_neg h, ht, hr, ok_bind, pure_eq_ok]
+/-- **aliasing output buffers are rejected, whatever the dtypes and shapes**: `out is x` or `out is y` — tested on
+the caller's ORIGINAL objects, before `y = y.to(x)` — gives `RuntimeError`. (Before fix b571e19 the test ran after the
+cast, so a `y` of another dtype was overwritten.) -/
+theorem C15_rejects_scalar_mult_alias (x y o : Obj α) (f1 f2 : Nat) (h : o.id = x.id ∨ o.id = y.id) :
+    scalarMultO x y (some o) f1 f2 = .error .RuntimeError := by
+  simp only [scalarMultO, if_pos h]
 
-/-- **aliasing output buffers are rejected**: `out is x` or `out is y` (after `y = y.to(x)`) gives
-`RuntimeError`, whatever the shapes; and this is the ONLY way a well-shaped call differs from `scalar_mult`
-without `out`. -/
-theorem C15_rejects_scalar_mult_alias (x y o : Obj α) (f1 f2 : Nat) :
-    ((o.id = x.id ∨ o.id = (toLike y x f1).id) → scalarMultO x y (some o) f1 f2 = .error .RuntimeError) ∧
-    (∀ e, scalarMult x.t y.t = .error e → scalarMultO x y (some o) f1 f2 = .error e ∨
-      scalarMultO x y (some o) f1 f2 = .error .RuntimeError) := by
+/-- for well-formed broadcastable operands, `RuntimeError` with an `out` buffer means aliasing and nothing else. -/
+theorem C15_scalar_mult_alias_iff {x y o : Obj α} {sx sy r : List Nat} (f1 f2 : Nat) (hx : IsCplx x.t sx)
+    (hy : IsCplx y.t sy) (hb : broadcastShape sx sy = .ok r) :
+    scalarMultO x y (some o) f1 f2 = .error .RuntimeError ↔ (o.id = x.id ∨ o.id = y.id) := by
   have ht : (toLike y x f1).t = y.t := (C15_toLike y x f1).2.2
   constructor
-  · intro h; simp only [scalarMultO, if_pos h]
-  · intro e he
-    by_cases h : o.id = x.id ∨ o.id = (toLike y x f1).id
-    · right; simp only [scalarMultO, if_pos h]
-    · left; simp only [scalarMultO, if_neg h, ht, he, error_bind]
+  · intro h
+    by_contra hna
+    obtain ⟨z, hz, _, _⟩ := C15_scalar_mult hx hy hb
+    simp only [scalarMultO, if_neg hna, ht, resultShape_eq hx hy hb, ok_bind] at h
+    split at h
+    · cases h
+    · simp only [hz, ok_bind, pure_eq_ok] at h; cases h
+  · exact C15_rejects_scalar_mult_alias x y o f1 f2
+
+/-- **an `out=` buffer of the wrong shape is rejected** (fix 89aee63): for a non-aliasing buffer the call raises
+`ValueError` IF AND ONLY IF the buffer's shape differs from the result shape `2 :: broadcast(sx, sy)` — a
+broadcastable-but-different, larger, smaller or differently ranked buffer is never written. -/
+theorem C15_rejects_scalar_mult_out_shape {x y o : Obj α} {sx sy r : List Nat} (f1 f2 : Nat) (hx : IsCplx x.t sx)
+    (hy : IsCplx y.t sy) (hb : broadcastShape sx sy = .ok r) (hna : ¬ (o.id = x.id ∨ o.id = y.id)) :
+    scalarMultO x y (some o) f1 f2 = .error .ValueError ↔ o.t.shape ≠ 2 :: r := by
+  have ht : (toLike y x f1).t = y.t := (C15_toLike y x f1).2.2
+  obtain ⟨z, hz, _, _⟩ := C15_scalar_mult hx hy hb
+  simp only [scalarMultO, if_neg hna, ht, resultShape_eq hx hy hb, ok_bind]
+  by_cases hs : o.t.shape = 2 :: r
+  · simp [hs, hz]
+  · simp [hs]
+
+/-- **scalar_mult with `out=`, every accepted buffer**: a non-aliasing buffer of the result shape receives the
+product — the returned object IS the buffer (its identity, its dtype), its value is the value computed without
+`out` (entrywise complex product under broadcasting) and has the buffer's shape; without `out` a new object of
+`x`'s dtype is returned. -/
+theorem C15_scalar_mult_out {x y o : Obj α} {sx sy r : List Nat} (f1 f2 : Nat) (hx : IsCplx x.t sx)
+    (hy : IsCplx y.t sy) (hb : broadcastShape sx sy = .ok r) :
+    ∃ z, scalarMult x.t y.t = .ok z ∧ IsCplx z r ∧
+      (∀ idx, Valid r idx → centry z idx = C.mul (centry x.t (bidx sx idx)) (centry y.t (bidx sy idx))) ∧
+      scalarMultO x y none f1 f2 = .ok ⟨f2, x.dtype, z⟩ ∧
+      (¬ (o.id = x.id ∨ o.id = y.id) → o.t.shape = 2 :: r →
+        scalarMultO x y (some o) f1 f2 = .ok ⟨o.id, o.dtype, z⟩ ∧ z.shape = o.t.shape) := by
+  have ht : (toLike y x f1).t = y.t := (C15_toLike y x f1).2.2
+  obtain ⟨z, hz, hc, he⟩ := C15_scalar_mult hx hy hb
+  refine ⟨z, hz, hc, he, ?_, fun hna hs => ⟨?_, by rw [hc.1, hs]⟩⟩
+  · simp only [scalarMultO, ht, hz, ok_bind, pure_eq_ok]
+  · simp only [scalarMultO, if_neg hna, ht, resultShape_eq hx hy hb, ok_bind, hs, ne_eq, not_true_eq_false,
+      if_false, hz, pure_eq_ok]
+
+/-- **no accepted call returns a wrong object or a value of the wrong shape** — for ARBITRARY operands (well-formed
+or not): whenever `scalar_mult(x, y, out=o)` returns, `o` aliases neither operand, the result is `o` itself (identity,
+dtype), its value is exactly what `scalar_mult(x, y)` computes, and that value has `o`'s shape. -/
+theorem C15_scalar_mult_out_sound (x y o res : Obj α) (f1 f2 : Nat)
+    (h : scalarMultO x y (some o) f1 f2 = .ok res) :
+    ¬ (o.id = x.id ∨ o.id = y.id) ∧ res.id = o.id ∧ res.dtype = o.dtype ∧
+      scalarMult x.t y.t = .ok res.t ∧ res.t.shape = o.t.shape := by
+  have ht : (toLike y x f1).t = y.t := (C15_toLike y x f1).2.2
+  by_cases hna : o.id = x.id ∨ o.id = y.id
+  · simp only [scalarMultO, if_pos hna] at h; cases h
+  · simp only [scalarMultO, if_neg hna, ht] at h
+    cases hrs : resultShape x.t y.t with
+    | error e => rw [hrs] at h; cases h
+    | ok rs =>
+      rw [hrs] at h
+      simp only [ok_bind] at h
+      by_cases hs : o.t.shape = rs
+      · simp only [hs, ne_eq, not_true_eq_false, if_false] at h
+        cases hz : scalarMult x.t y.t with
+        | error e => rw [hz] at h; cases h
+        | ok z =>
+          rw [hz] at h
+          simp only [ok_bind, pure_eq_ok, Except.ok.injEq] at h
+          subst h
+          exact ⟨hna, rfl, rfl, rfl, by rw [hs]; exact scalarMult_shape hrs hz⟩
+      · simp only [ne_eq, hs, not_false_eq_true, if_true] at h; cases h
 
 end anycarrier
 section ring
@@ -934,6 +987,15 @@ example : kroneckerProd (⟨[2, 1, 2], [1, 2, 0, 1]⟩ : Tensor ℤ) ⟨[2, 2, 1
     = .ok ⟨[2, 2, 2], [3, 5, 4, 8, 1, 5, 0, 4]⟩ := by rfl
 /-- conjugate transpose of a `1×2` matrix is `2×1` -/
 example : conjugate (⟨[2, 1, 2], [1, 2, 3, 4]⟩ : Tensor ℤ) = .ok ⟨[2, 2, 1], [1, 2, -3, -4]⟩ := by rfl
+/-- a buffer of the result shape is accepted and returned (id 3, its own dtype); a differently shaped one —
+even one that broadcasts with the result — is rejected with `ValueError`; an aliasing one with `RuntimeError` even
+when `y` has another dtype than `x` (so that `y.to(x)` makes a copy) -/
+example : scalarMultO (⟨1, .f64, ⟨[2, 2], [1, 2, 3, 4]⟩⟩ : Obj ℤ) ⟨2, .f32, ⟨[2], [0, 1]⟩⟩
+    (some ⟨3, .f32, ⟨[2, 2], [7, 7, 7, 7]⟩⟩) 4 5 = .ok ⟨3, .f32, ⟨[2, 2], [-3, -4, 1, 2]⟩⟩ := by rfl
+example : scalarMultO (⟨1, .f64, ⟨[2, 2], [1, 2, 3, 4]⟩⟩ : Obj ℤ) ⟨2, .f32, ⟨[2], [0, 1]⟩⟩
+    (some ⟨3, .f64, ⟨[2, 1], [7, 7]⟩⟩) 4 5 = .error .ValueError := by rfl
+example : scalarMultO (⟨1, .f64, ⟨[2], [2, 3]⟩⟩ : Obj ℤ) ⟨2, .f32, ⟨[2], [0, 1]⟩⟩
+    (some ⟨2, .f32, ⟨[2], [0, 1]⟩⟩) 4 5 = .error .RuntimeError := by rfl
 /-- aliasing is rejected, a fresh buffer accepted -/
 example : scalarMultO (⟨1, .f64, ⟨[2], [1, 2]⟩⟩ : Obj ℤ) ⟨2, .f64, ⟨[2], [3, 4]⟩⟩ (some ⟨2, .f64, ⟨[2], [3, 4]⟩⟩) 4 5
     = .error .RuntimeError := by rfl
